@@ -90,6 +90,12 @@ def run(res, tier, seed, shard, nshards):
          for (fin, op, mask) in ((1, R.BINARY, 1), (0, R.CONT, 1), (1, R.TEXT, 0))] + [(1, R.BINARY, 1, 5000003), (1, R.CONT, 1, 12345678)]
     for fin, op, mask, n in bigs:
         cases.append(("len", fin, op, mask, 127, n, "big"))
+    # a 64-bit length far beyond anything that is transferred here (2 GiB and more): the frame is incomplete when the stream ends, so
+    # nothing is delivered - in particular not a "frame" cut at the declared length taken modulo some power of two
+    for L in ((1 << 31) + 5, (1 << 32) + 7, (1 << 33), (1 << 40) + 3, (1 << 62) + 1, (1 << 63) - 1, (1 << 31), (1 << 24) * 129 + 5):
+        for mask in (0, 1):
+            for op in (R.BINARY, R.TEXT):
+                cases.append(("huge", op, mask, L))
     # (b)/(c) random multi-frame streams
     n_rand = 600 if tier == "quick" else 80000
     for i in range(n_rand):
@@ -100,7 +106,9 @@ def run(res, tier, seed, shard, nshards):
         for i, c in enumerate(cases):
             if i % nshards != shard:
                 continue
-            if c[0] in ("hdr", "len"):
+            if c[0] == "huge":
+                huge_declared_case(res, W, rng, c)
+            elif c[0] in ("hdr", "len"):
                 header_case(res, W, rng, c, nseg)
             else:
                 multi_case(res, W, rng, tier)
@@ -139,6 +147,31 @@ def header_case(res, W, rng, c, nseg):
         judge(res, W, stream, script, cuts, "eof", {}, ("hdr", fin, op, mask, l7, n), expect_sentinel=True)
     res.count(f"hdr_lenclass:{7 if l7 <= 125 else 16 if l7 == 126 else 64}")
     res.count("hdr_masked" if mask else "hdr_unmasked")
+
+
+def huge_declared_case(res, W, rng, c):
+    _, op, mask, L = c
+    key = rng.randbytes(4) if mask else b""
+    tail = b"abcde" + R.encode(R.BINARY, SENT) + R.encode(R.TEXT, b"more")
+    stream = bytes([0x80 | op, (0x80 if mask else 0) | 127]) + L.to_bytes(8, "big") + key + tail
+    res.count("huge_declared_lengths")
+    for name in ("recv_frame", "recv_data_frame", "recv"):
+        w, conn, peer = H.connected_ws(after=stream, timeout=1)
+        conn.peer_close()
+        case = {"gen": "huge-declared-length", "declared": L, "opcode": op, "masked": mask, "call": name, "bytes_after_header": len(tail)}
+        res.case(("huge", op, mask, L, name), nontrivial=True)
+        try:
+            v = getattr(w, name)() if name != "recv_data_frame" else w.recv_data_frame(True)
+        except W.WebSocketException:
+            res.count("huge_declared_not_delivered")
+            continue
+        except Exception as e:  # noqa
+            res.violation("unexpected-exception", f"frame declaring {L} payload bytes followed by {len(tail)} bytes and end of stream through {name}: "
+                          f"{type(e).__name__}: {e}", case, exc_type=type(e).__name__)
+            continue
+        got = v if isinstance(v, (str, bytes)) else (getattr(v, "data", None) if not isinstance(v, tuple) else getattr(v[1], "data", v[1]))
+        res.violation("value-mismatch", f"frame declaring {L} payload bytes of which only {len(tail)} arrived before the end of the stream: {name} returned "
+                      f"{repr(got)[:60]} instead of reporting the lost connection", case)
 
 
 def multi_case(res, W, rng, tier):
